@@ -10,6 +10,22 @@ TRUSTED_COMMON = [
 ]
 
 PROPS = {
+    "C07": {
+        "num": 7,
+        "vo": ["Properties/C07.vo"],
+        "harness_timeout": 1500,
+        "rule": "agenda: random histories of 3..14 ops (add_activation with saliences incl. ties and i32 extremes, 4 rule names, 2 activation groups, 3 agenda groups, no-loop / lock-on-active / auto-focus flags; "
+                "get_next_activation usually followed by mark_rule_fired; set_focus; reset) on the real AdvancedAgenda with strictly increasing creation instants; fire_all: 240 (quick) / 3000 (thorough) rule sets of 1..5 "
+                "constant-condition rules with and without no-loop, priorities incl. i32::MIN/MAX, on ReteUlEngine, TypedReteUlEngine and IncrementalEngine, each run in a child process under a 30 s watchdog; "
+                "non-trivial = at least one Next (agenda) / any loop case",
+        "level_text": "Proved for every agenda state with distinct creation times: get_next_activation returns an eligible activation (no-loop, activation-group and lock filters) that is greatest for (salience desc, "
+                "earlier created) in its group, the pop loop equals 'best eligible + drop everything above', and every history of the five operations is observed exactly as the specification says; proved for every rule set: "
+                "each of the three fire_all loops ends within its iteration bound, the bounds being read from the current source (a missing bound makes the theorem fail). The harness confirms model = code per op and per run, with a hang watchdog.",
+        "level_note": "Trusted: Coq kernel; model of rete/agenda.rs and of the loop structure of the three fire_all functions over constant-condition rules (after fixes 748fa6c, 024886f); std BinaryHeap::pop returns an Ord-maximum; "
+                "Instant::now strictly increasing between activations (enforced by the harness); consts.py; harness; extraction. Ruleflow groups and conflict strategies other than Salience are not modelled. Axioms: none.",
+        "trusted_base": ["std::collections::BinaryHeap::pop returns a maximum w.r.t. Ord", "Instant::now is strictly increasing between two Activation::new calls"],
+        "assumptions": ["activations are created in sequence (distinct creation instants)"],
+    },
     "C08": {
         "num": 8,
         "vo": ["Properties/C08.vo"],
